@@ -279,15 +279,17 @@ func c17Body(c *c17Case) *sm.Fail {
 						}
 						// and the scan over the intersection must deliver every stored entry holding v
 						if _, stored := storedVals[cs.Show(v)]; stored {
-							found := false
-							idx.IterateRange(in, false, func(id string) error {
-								if model.Cmp(valOf[id], v) == 0 {
-									found = true
+							for _, back := range []bool{false, true} {
+								found := false
+								idx.IterateRange(in, back, func(id string) error {
+									if model.Cmp(valOf[id], v) == 0 {
+										found = true
+									}
+									return nil
+								})
+								if !found {
+									return bad("intersect", "stored value %s lies in %s and in %s but a scan (reverse=%v) of their intersection does not deliver it", cs.Show(v), r, r2, back)
 								}
-								return nil
-							})
-							if !found {
-								return bad("intersect", "stored value %s lies in %s and in %s but a scan of their intersection does not deliver it", cs.Show(v), r, r2)
 							}
 						}
 					}
